@@ -163,6 +163,12 @@ def run(ctx) -> None:
                     ok = False
         rep.add("C01.R1", f"{impl.qname}:same-mapping", ok, impl.loc(), "the mapping seeded into the state is the one handed to the superstep" if ok else "initialize_state and the superstep receive different value mappings")
 
+    # the BOUND source holds what bind() stored, nothing else: a run never writes its run-time values into the table the
+    # resolver and the readiness test read as bindings (a later run would get them instead of its signature defaults)
+    from .c08 import check_validation_read_only
+
+    check_validation_read_only(ctx, "C01.R1")
+
     # ---- R2 ---------------------------------------------------------------------
     check_readiness_vs_resolver(ctx, "C01.R2")
 
